@@ -496,3 +496,30 @@ def hint_deletes_field_before_meta_cleanup(case, outcome, atoms):
     if not trigger:
         return atoms
     return [a for a in atoms if not (a[0] == 'exception' and a[2] == 'FieldDoesNotExist')]
+
+
+# ---------------------------------------------------------------------------
+# F-C02-1
+# ---------------------------------------------------------------------------
+
+@explainer
+def callable_initial_overwrites_column(case, outcome, atoms):
+    """ChangeField(null=False, initial=<callable returning an SQL literal>) on
+    SQLite copies the literal into *every* row of the column (the rebuild's
+    SELECT uses the bare literal instead of coalesce(col, literal)); the
+    repository's own test expectation encodes that SQL, so it is recorded, not
+    repaired."""
+    from . import specs as S
+    trail = _trail(case)
+    uids = set()
+    for i, mut in enumerate(case['seq']):
+        if mut['kind'] == 'ChangeField' and mut['attrs'].get('null') is False and \
+                isinstance(mut.get('initial'), dict) and 'callable' in mut['initial']:
+            m = S.get_model(trail[i], mut['app'], mut['model'])
+            f = S.get_field(m, mut['name']) if m else None
+            if f is not None:
+                uids.add(f['uid'])
+    if not uids:
+        return atoms
+    return [a for a in atoms
+            if not (a[0] == 'rows' and a[1] == 'value_changed' and a[3] in uids)]
